@@ -127,9 +127,28 @@ def nested_worker(values):
     model = drv.results([{"op": "cell.joinrt", "v": v} for v in values])
     ties, viol, known = [], [], []
     n_wf = 0
-    for v, m in zip(values, model):
+    cp2 = CP()     # one parser for many cells, as RowParser holds one per sheet
+    n_hist = 0
+    for k, (v, m) in enumerate(zip(values, model)):
         j = cp.join_from_lists(v)
         back = cp.split_into_lists(j)
+        # the entry point the row parser uses: a template-free cell means the same whatever the parser has
+        # parsed before (a native-object template, a text template, nothing)
+        if "{" not in j:
+            if k % 3 == 0:
+                cp2.parse("{@ [1, 2] @}")
+            elif k % 3 == 1:
+                cp2.parse("x{{ 1 + 1 }};y")
+            n_hist += 1
+            for ctx in (None, {}):
+                got = cp2.parse(j, context=ctx)
+                fresh = CP().parse(j, context=ctx)
+                if got != fresh and len(viol) < 40:
+                    viol.append({"what": "a template-free cell parsed by a parser that has parsed other cells before differs from the same cell parsed by a fresh parser",
+                                 "parsed_before": ["{@ [1, 2] @}", "x{{ 1 + 1 }};y", None][k % 3], "cell": j, "context": ctx, "got": got, "fresh_parser": fresh})
+                if fresh != cp.split_into_lists(j.strip()) and len(viol) < 40:
+                    viol.append({"what": "parse of a template-free cell is not split_into_lists of the trimmed cell", "cell": j, "context": ctx, "got": fresh,
+                                 "expected": cp.split_into_lists(j.strip())})
         if {"joined": j, "back": back} != m:
             if len(ties) < 20:
                 ties.append({"input": v, "real": {"joined": j, "back": back}, "model": m})
@@ -146,7 +165,7 @@ def nested_worker(values):
                 known.append(v)
             else:
                 viol.append({"what": "nested list with U+0001 altered beyond the known finding", "input": v, "got": back})
-    return {"n": len(values), "ties": ties, "viol": viol[:20], "nviol": len(viol), "known": known[:3], "nknown": len(known), "n_wf": n_wf}
+    return {"n": len(values), "ties": ties, "viol": viol[:20], "nviol": len(viol), "known": known[:3], "nknown": len(known), "n_wf": n_wf, "n_hist": n_hist}
 
 
 HOLE = ""
@@ -276,7 +295,7 @@ def run(ck: core.Check):
             if r.get("nknown"):
                 ck.known("F-C08-a", "U+0001 (temporary character of cleanse) in a cell comes back as a backslash", r["known"][0])
                 ck.count("known_F-C08-a_cases", r["nknown"])
-            for k in ("n_sep", "n_list", "n_wf"):
+            for k in ("n_sep", "n_list", "n_wf", "n_hist"):
                 if k in r:
                     ck.count(f"{kind}.{k}", r[k])
 
